@@ -8,6 +8,7 @@ use std::io::{BufRead, Write};
 use std::path::Path;
 
 mod dump;
+mod fmtitems;
 mod front;
 mod lsp;
 mod lsppos;
@@ -87,6 +88,7 @@ fn main() {
             }
         }
         Some("front") => front::main(&args[2..]),
+        Some("fmtitems") => fmtitems::main(&args[2..]),
         Some("lsp") => lsp::main(&args[2..]),
         Some("lsppos") => lsppos::main(&args[2..]),
         _ => {
